@@ -294,3 +294,41 @@ func C17CloserBeforeQueueClose() {
 	sym.Assert(atomic.LoadInt32(&closerRan) == 1, "closer-exactly-once")
 	sym.Reach("closer-order-done")
 }
+
+// C17ConcurrentRegistration: two goroutines register a handler at the same time (plus one registered
+// before): the identifiers are distinct, both handlers receive the next message, and at shutdown each
+// closer runs exactly once and each queue is closed.
+func C17ConcurrentRegistration() {
+	s := newZZStream()
+	e := NewEndPoint(s)
+	const n = 3
+	var closers [n]int32
+	queues := make([]chan *Message, n)
+	ids := make([]int, n)
+	for i := range queues {
+		queues[i] = make(chan *Message, 2)
+	}
+	mk := func(i int) {
+		ids[i] = e.MakeHandler(func(hdr *Header) (bool, bool) { return true, true }, queues[i], func(err error) { atomic.AddInt32(&closers[i], 1) })
+	}
+	mk(0)
+	done := make(chan bool, 2)
+	go func() { mk(1); done <- true }()
+	go func() { mk(2); done <- true }()
+	<-done
+	<-done
+	sym.Assert(ids[0] != ids[1] && ids[0] != ids[2] && ids[1] != ids[2], "concurrent-registration/identifier-issued-twice")
+	s.inject(NewMessage(NewHeader(Event, 1, 1, 1, 1), nil))
+	sym.Quiesce()
+	e.Close()
+	sym.Quiesce()
+	for i := range queues {
+		got := 0
+		for range queues[i] { // terminates only if the queue was closed
+			got++
+		}
+		sym.Assert(got == 1, "concurrent-registration/handler-missed-the-message")
+		sym.Assert(atomic.LoadInt32(&closers[i]) == 1, "closer-exactly-once")
+	}
+	sym.Reach("concurrent-registration-done")
+}
